@@ -102,7 +102,8 @@ DiffSummaries(rec) ==
       ageOK(a, p) == a.name = p /\ a.date \in {live[p].first, live[p].afirst}
       obsAge == {[name |-> o.age[i].name, date |-> o.age[i].date] : i \in DOMAIN o.age}
       eff == Eff(rec)
-      facts == SelectSeq(rec.facts, LAMBDA c : ~c.merge /\ c.changes # <<>>)
+      \* a synthesised list may keep the commits without any change (rec.keepEmpty): they are commits of the list
+      facts == SelectSeq(rec.facts, LAMBDA c : ~c.merge /\ (rec.keepEmpty \/ c.changes # <<>>))
       auths == {facts[i].author : i \in DOMAIN facts}
       RECURSIVE Net(_, _)
       Net(cs, k) == IF k > Len(cs) THEN 0 ELSE cs[k].added - cs[k].deleted + Net(cs, k + 1)
